@@ -122,6 +122,10 @@ class Runtime:
                 snap[("motor", in1, in2, en)] = (applied, mode)
             elif kind == "lcd":
                 snap[("lcd", dev._redu_index)] = dev.dump()
+                if dev.glyphs:
+                    snap[("glyphs", dev._redu_index)] = {int(k): tuple(v) for k, v in dev.glyphs.items()}
+                if dev.is_i2c:
+                    snap[("lcdbl", dev._redu_index)] = bool(dev.backlight_on)
                 if getattr(dev, "backlight_pin", None) is not None:
                     level = int(dev.brightness_level) if dev.backlight_on else 0
                     snap[("pin", _pin_number(dev.backlight_pin))] = level
